@@ -123,12 +123,13 @@ pub struct Agg {
     pub harness_errors: Vec<(u64, String)>,
     pub samples: Vec<serde_json::Value>,
     pub violating: Vec<RunResult>,
+    pub unknown_violating: u64,
     pub first_seed: u64,
     pub last_seed: u64,
     pub wall_s: f64,
 }
 
-pub fn explore(def: &CheckDef, tier: Tier, base_seed: u64) -> Agg {
+pub fn explore(def: &CheckDef, tier: Tier, base_seed: u64, known: &[String]) -> Agg {
     let dir = coord_dir();
     let _ = std::fs::create_dir_all(&dir);
     let budget = Duration::from_secs(std::env::var("MEMSIM_BUDGET_S").ok().and_then(|s| s.parse().ok()).unwrap_or(match tier {
@@ -156,6 +157,7 @@ pub fn explore(def: &CheckDef, tier: Tier, base_seed: u64) -> Agg {
         harness_errors: Vec::new(),
         samples: Vec::new(),
         violating: Vec::new(),
+        unknown_violating: 0,
         first_seed: base_seed,
         last_seed: base_seed,
         wall_s: 0.0,
@@ -166,7 +168,7 @@ pub fn explore(def: &CheckDef, tier: Tier, base_seed: u64) -> Agg {
     loop {
         let time_left = t0.elapsed() < budget;
         // stop launching once a few violations are in hand (shrinking needs the time)
-        let launch = time_left && next < max_runs && agg.violating.len() < 3;
+        let launch = time_left && next < max_runs && agg.unknown_violating < 3;
         while launch && children.len() < jobs && next < max_runs {
             let seed = base_seed.wrapping_add(next);
             let path = format!("{dir}/r{seed}.json");
@@ -218,7 +220,18 @@ pub fn explore(def: &CheckDef, tier: Tier, base_seed: u64) -> Agg {
                         }
                     }
                     if !r.violations.is_empty() {
-                        agg.violating.push(r);
+                        let has_unknown = r.violations.iter().any(|v| !known.contains(&crate::evidence::signature(def.id, &v.oracle, &v.sig)));
+                        if has_unknown {
+                            agg.unknown_violating += 1;
+                        }
+                        // keep every run with an unknown violation, and one run per known signature
+                        let new_sig = r.violations.iter().any(|v| {
+                            let s = crate::evidence::signature(def.id, &v.oracle, &v.sig);
+                            !agg.violating.iter().any(|o: &RunResult| o.violations.iter().any(|w| crate::evidence::signature(def.id, &w.oracle, &w.sig) == s))
+                        });
+                        if has_unknown || new_sig {
+                            agg.violating.push(r);
+                        }
                     }
                 }
                 None => agg.crashed_children.push((seed, how)),
